@@ -105,6 +105,7 @@ type Interp struct {
 	cborStore map[*ByteObj]Value
 	opaqueLens map[int32]bool
 	axiomSeen map[*Term]bool
+	groupScalars map[*Term][]*Term
 	forkSites map[string]int
 	notes     map[string]Value
 	pcs       []pcEntry
